@@ -7,7 +7,11 @@ from . import common as C
 from edgegraph.structure import base as _base
 from edgegraph.structure import (Vertex, Universe, DirectedEdge, UnDirectedEdge, TwoEndedLink)
 from edgegraph.structure.universe import UniverseLaws
-from edgegraph.builder import explicit
+from edgegraph.builder import explicit, adjlist, adjmatrix
+from edgegraph.builder import randgraph as _rgmod
+import random as _random
+
+CELLS = [0, 1, "x", [], [0], None, 0.0, -1]   # adjacency-matrix cell codes -> Python values (truthiness is what counts)
 
 # ---- creation-order registry (harness-side wrapper, no repository hook) ------------------------
 _REG = None
@@ -217,6 +221,38 @@ class World:
         if t == "CACHE":
             Vertex.NEIGHBOR_CACHING = bool(op[1])
             return ("none", None)
+        if t == "LAD":
+            adj = {}
+            for key, vals in op[2]:
+                vs_ = [g(v, V) for v in vals]
+                adj[g(key, V)] = tuple(vs_) if len(vs_) % 2 else vs_
+            return ("id", adjlist.load_adj_dict(adj, KIND_CLS[op[1]]))
+        if t == "LAM":
+            side = [g(v, V) for v in op[2]]
+            m = [[CELLS[c] for c in row] for row in op[3]]
+            return ("id", adjmatrix.load_adj_matrix(m, side, KIND_CLS[op[1]]))
+        if t == "RG":
+            count, k, conn, ens, seed = op[1], op[2], op[3], op[4], op[5]
+            draws = []
+            self.last_draws = draws
+            ri, sa = _random.randint, _random.sample
+
+            def randint(a, b):
+                r = ri(a, b)
+                draws.append(["randint", a, b, r])
+                return r
+
+            def sample(pop, k_):
+                r = sa(pop, k_)
+                draws.append(["sample", len(pop), k_, [next(i for i, x in enumerate(pop) if x is y) for y in r]])
+                return r
+            _random.seed(seed)
+            _random.randint, _random.sample = randint, sample
+            try:
+                kw = {} if conn is None else {"connectivity": conn}
+                return ("id", _rgmod.randgraph(count, KIND_CLS[k], ensurelink=ens, **kw))
+            finally:
+                _random.randint, _random.sample = ri, sa
         raise CaseInvalid(f"unknown op {t}")
 
     def do(self, op):
